@@ -1125,8 +1125,17 @@ where
         if SEALED && chunks_rev.next() != Some(Word::one()) {
             return Err(CoderError::Frontend(()));
         }
+        let mut num_written = 0;
         for chunk in chunks_rev.rev() {
-            ans.bulk.write(chunk)?
+            if let Err(err) = ans.bulk.write(chunk) {
+                // Take back the words we've already appended so that a failed call leaves
+                // `ans` unchanged (no guard gets constructed, so `drop` won't do it for us).
+                for _ in 0..num_written {
+                    core::mem::drop(ans.bulk.read());
+                }
+                return Err(CoderError::Backend(err));
+            }
+            num_written += 1;
         }
 
         Ok(Self { inner: ans })
